@@ -262,6 +262,8 @@ pub fn apply_params<P: Par>(mut p: P, pos: usize, rc: &Rc) -> P {
 pub fn mk_map<T: Elem>(st: Stage, si: u8) -> impl Fn(T) -> E + Clone + Send + Sync {
     move |x: T| {
         let v = x.v();
+        // the consumed input is dropped first: no user code (Drop) runs after the call has been recorded
+        drop(x);
         let _g = obs::enter(Kind::Stage, Site::Stage(si), si, 1, v.uid);
         E::new(map_v(v, si as u32, st.k))
     }
@@ -277,6 +279,7 @@ pub fn mk_filter<T: Elem>(st: Stage, si: u8) -> impl Fn(&T) -> bool + Clone + Se
 fn mk_flat<T: Elem>(st: Stage, si: u8) -> impl Fn(T) -> Vec<E> + Clone + Send + Sync {
     move |x: T| {
         let v = x.v();
+        drop(x);
         let n = flat_n(v, st.k, st.fan);
         let _g = obs::enter(Kind::Stage, Site::Stage(si), si, n, v.uid);
         (0..n).map(|j| E::new(flat_v(v, si as u32, st.k, j))).collect()
@@ -285,6 +288,7 @@ fn mk_flat<T: Elem>(st: Stage, si: u8) -> impl Fn(T) -> Vec<E> + Clone + Send + 
 fn mk_filter_map<T: Elem>(st: Stage, si: u8) -> impl Fn(T) -> Option<E> + Clone + Send + Sync {
     move |x: T| {
         let v = x.v();
+        drop(x);
         let keep = mask_hit(v.val, st.mask);
         let _g = obs::enter(Kind::Stage, Site::Stage(si), si, keep as u32, v.uid);
         keep.then(|| E::new(map_v(v, si as u32, st.k)))
